@@ -42,7 +42,7 @@ FROM_ELEM = re.compile(r"\bvec::from_elem$")
 PAYLOAD_KEEP = re.compile(r"\bOption::<T>::(ok_or|ok_or_else|copied|cloned|filter|or|or_else|take)$|\bResult::<T, E>::(map_err|ok|or|or_else|inspect_err)$")
 GET_CALL = re.compile(r"core::slice::<impl \[T\]>::(get|get_mut)$|\bVec::<T, A>::get$")
 FIND_CALL = re.compile(r"core::str::<impl str>::(find|rfind)$|memchr::memchr$")
-INPUT_CALL = re.compile(r"::from_(be|le|ne)_bytes$|\bReadBytesExt>?::read_\w+$|BinReaderExt>?::read_\w+$|\bBinRead>?::read\w*$|::read_(u|i)\d+\w*$|::get_(u|i)\d+\w*$")
+INPUT_CALL = re.compile(r"core::str::<impl str>::parse$|::from_str_radix$|\bFromStr>?::from_str$|::from_(be|le|ne)_bytes$|\bReadBytesExt>?::read_\w+$|BinReaderExt>?::read_\w+$|\bBinRead>?::read\w*$|::read_(u|i)\d+\w*$|::get_(u|i)\d+\w*$")
 
 
 class Lin:
@@ -244,6 +244,7 @@ class Sink:
 class Analysis:
     def __init__(self, body, max_iter=40, assume=(), requires=None, summaries=None, posts=None):
         self.b = body
+        self.ret_taints = (posts or {}).get("ret_taints", {})
         self.req_src = (posts or {}).get("src", {})
         self.req_ty = (posts or {}).get("ty", {})
         self.posts = (posts or {}).get("facts", {})
@@ -253,6 +254,7 @@ class Analysis:
         self.assume = list(assume)
         self.requires = requires or {}
         self._ovf = {}
+        self.minmax = {}
         self.byte_refs = set()
         self.atom_src = {}   # atom -> (kind, detail)
         self.atom_ty = {}
@@ -558,6 +560,10 @@ class Analysis:
                     rngv = ("RangeTo", None, ops[0])
                 else:
                     rngv = (kind, None, None)
+            elif r.get("ak") == "adt" and r.get("variant") in ("Ok", "Some") and len(r["o"]) == 1 and re.search(r"result::Result$|option::Option$", r.get("adt", "")):
+                pv_ = self.operand(st, r["o"][0], bb, idx)
+                if pv_ is not None:
+                    fields["payload"] = pv_
             elif r.get("ak") == "closure":
                 caps = []
                 for o in r["o"]:
@@ -649,8 +655,18 @@ class Analysis:
             return isinstance(l, int) and bool(UNSIGNED.match(self.ty(l)))
         return bool(UNSIGNED.match(self.atom_ty.get(a, "")))
 
-    def prove(self, st, g):
+    def prove(self, st, g, depth=0):
         """-> (description, [facts used]) or None"""
+        if depth < 2:
+            # m = min(a, b) below a bound (coefficient < 0): it is one of the two - prove both cases; dually for max above
+            for at_, v_ in g.t.items():
+                mm = self.minmax.get(at_)
+                if mm and ((mm[0] == "min" and v_ < 0) or (mm[0] == "max" and v_ > 0)):
+                    rest = Lin(g.c, {x: y for x, y in g.t.items() if x != at_})
+                    p1 = self.prove(st, rest.add(mm[1], v_), depth + 1)
+                    p2 = self.prove(st, rest.add(mm[2], v_), depth + 1) if p1 else None
+                    if p1 and p2:
+                        return ("%s case split: %s | %s" % (mm[0], p1[0], p2[0]), p1[1] + p2[1])
         cands = [g]
         neg = [a for a, v in g.t.items() if v < 0 and self.unsigned_atom(a)]
         if neg:
@@ -777,6 +793,8 @@ class Analysis:
             c = self.operand(st, args[1], bb, "t")
             if d is not None and INT.match(self.ty(d)):
                 val = self.fresh("min", bb, "t", "derived", "")
+                if a is not None and c is not None:
+                    self.minmax[val.single()] = ("min", a, c)
                 self.derive(val, [x for x in (a, c) if x is not None])
                 for x in (a, c):
                     if x is not None:
@@ -786,10 +804,21 @@ class Analysis:
             c = self.operand(st, args[1], bb, "t")
             if d is not None and INT.match(self.ty(d)):
                 val = self.fresh("max", bb, "t", "derived", "")
+                if a is not None and c is not None:
+                    self.minmax[val.single()] = ("max", a, c)
                 self.derive(val, [x for x in (a, c) if x is not None])
                 for x in (a, c):
                     if x is not None:
                         newfacts.append(x.sub(val))
+        elif re.search(r"::saturating_add$", name) and len(args) == 2:
+            a = self.operand(st, args[0], bb, "t")
+            c = self.operand(st, args[1], bb, "t")
+            if d is not None and UNSIGNED.match(self.ty(d)):
+                val = self.fresh("sadd", bb, "t", "derived", "")
+                self.derive(val, [x for x in (a, c) if x is not None])
+                for x in (a, c):
+                    if x is not None:
+                        newfacts.append(x.sub(val))      # r >= a, r >= b (unsigned)
         elif SAT_SUB.search(name) and len(args) == 2:
             a = self.operand(st, args[0], bb, "t")
             c = self.operand(st, args[1], bb, "t")
@@ -1011,7 +1040,7 @@ class Analysis:
         if payload is None and d is not None and val is None:
             m_ = re.match(r"^core::(result::Result|option::Option)<(u8|u16|u32|u64|usize|i8|i16|i32|i64|isize)\b", self.ty(d))
             if m_:
-                kind_ = "input" if (INPUT_CALL.search(name) or INPUT_CALL.search(orig)) else "call:%s" % name.split("::")[-1]
+                kind_ = "input" if (INPUT_CALL.search(name) or INPUT_CALL.search(orig) or "input" in self.ret_taints.get(cid, ())) else "call:%s" % name.split("::")[-1]
                 payload = self.fresh("pay", bb, "t", kind_, name, m_.group(2))
                 srcs_ = [self.operand(st, a, bb, "t") for a in args]
                 self.derive(payload, [x for x in srcs_ if x is not None])
@@ -1057,7 +1086,7 @@ class Analysis:
                 st.lendef[("vec", d, st.ver.get(d, 0))] = vec_len
             if val is None and payload is None and cmpv is None and INT.match(self.ty(d)):
                 kind = "other"
-                if INPUT_CALL.search(name) or INPUT_CALL.search(orig):
+                if INPUT_CALL.search(name) or INPUT_CALL.search(orig) or "input" in self.ret_taints.get(cid, ()):
                     kind = "input"
                 elif args and not LEN_CALL.search(name):
                     kind = "call:%s" % name.split("::")[-1]
@@ -1210,6 +1239,14 @@ class Analysis:
             pf = [f for f in common if f.t and all(a[0] == "fld" and a[1][0] == "arg" for a in f.atoms())]
             if pf:
                 self.post_facts = sorted(pf, key=repr)
+        # what the returned number derives from (so that `parse_number()?` is as much input as the str::parse inside it)
+        self.ret_taint = set()
+        for i_, so in getattr(self, "out_state", {}).items():
+            # (any block: the success value is assigned on one path and joins with error paths before the return block)
+            for key_ in (0, (0, "payload")):
+                v_ = so.env.get(key_)
+                if v_ is not None and v_.t:
+                    self.ret_taint |= self.taint_of([v_])
         # return summary: the same linear function of the parameters on every return path
         self.ret = None
         if INT.match(self.ty(0)):
@@ -1262,7 +1299,7 @@ def analyse_closure(prog, cl, rounds=4, krate_prefix="cascette_"):
     requires = {}
     results = {}
     summaries = {}
-    posts = {"facts": {}, "src": {}, "ty": {}}
+    posts = {"facts": {}, "src": {}, "ty": {}, "ret_taints": {}}
     has_caller = set()
     indirect = set()
     for bid in cl:
@@ -1296,6 +1333,10 @@ def analyse_closure(prog, cl, rounds=4, krate_prefix="cascette_"):
                 continue
             a0 = Analysis(b, requires=requires, summaries=summaries, posts=posts)
             results[bid] = a0
+            rt_ = {t_ for t_ in a0.ret_taint if t_ == "input"}
+            if rt_ and posts["ret_taints"].get(bid) != rt_ and not b.root:
+                posts["ret_taints"][bid] = rt_
+                changed.add(bid)
             if a0.ret is not None and summaries.get(bid) != a0.ret:
                 summaries[bid] = a0.ret
                 changed.add(bid)
